@@ -12,6 +12,9 @@ def run(job, monitors, validated='transitions', **kw):
                          state_cap=job.get('state_cap'),
                          time_cap=job.get('time_cap'), job=job,
                          sample_every=1, **kw)
+    if not stats.get('built', True) and 'on_build_error' not in kw:
+        # a configuration that cannot be constructed explores nothing: that is a harness fault, not a silent pass
+        raise RuntimeError(f'configuration did not build: {stats.get("build_error")} :: {configs.describe(job["cfg"])}')
     for v in ctx.violations:
         v['warn'] = job.get('warn', 'ignore')
         v['family'] = job.get('family')
